@@ -10,14 +10,15 @@ git -C /repo worktree add --detach $WT HEAD >/dev/null 2>&1 || exit 2
 demo=$(ls $SD/*.rs | head -1)
 crate=pie; grep -q "pie_graph" $demo && ! grep -q "use pie::" $demo && crate=graph
 export CARGO_TARGET_DIR=/tmp/seedtarget CARGO_NET_OFFLINE=true
+FEAT=""; grep -q file_hash_checker $demo && FEAT="--features file_hash_checker"
 ( cd $WT && git apply $SD/patch.diff ) || { echo "PATCH DOES NOT APPLY"; git -C /repo worktree remove --force $WT; exit 2; }
 base=$(cd $WT && cargo test --workspace --no-fail-fast --offline 2>&1 | grep "^test result" | awk '{p+=$4; f+=$6} END {print p" passed "f" failed"}')
 echo "baseline with change: $base"
 mkdir -p $WT/$crate/tests; cp $demo $WT/$crate/tests/seed_demo.rs
-with=$(cd $WT && cargo test -p $( [ $crate = pie ] && echo pie || echo pie_graph ) --test seed_demo --offline 2>&1 | grep "^test result" | tail -1)
+with=$(cd $WT && cargo test -p $( [ $crate = pie ] && echo pie || echo pie_graph ) --test seed_demo $FEAT --offline 2>&1 | grep "^test result" | tail -1)
 echo "demo with change: $with"
 ( cd $WT && git apply -R $SD/patch.diff )
-without=$(cd $WT && cargo test -p $( [ $crate = pie ] && echo pie || echo pie_graph ) --test seed_demo --offline 2>&1 | grep "^test result" | tail -1)
+without=$(cd $WT && cargo test -p $( [ $crate = pie ] && echo pie || echo pie_graph ) --test seed_demo $FEAT --offline 2>&1 | grep "^test result" | tail -1)
 echo "demo without change: $without"
 git -C /repo worktree remove --force $WT
 # now the checks against /repo itself
